@@ -37,6 +37,26 @@ structure HierOut (α : Type) where
 inductive HErr | notImplemented | badLength
   deriving Repr, DecidableEq
 
+/-- one sub-model of the composite on its own slice of population parameters (`topOff`),
+    covariates (`covOff`) and individual-level columns (`hierOff`): its score and its `nDim`
+    columns of individual parameters -/
+def subEval [HasErf α] (legacyTrunc : Bool) (nIds nHierTot : Nat) (params : Nat → α)
+    (covAll : Nat → Nat → α) (s : SubModel) (topOff covOff hierOff : Nat) :
+    Score α × List (Nat → PsiVal α) :=
+  let nBottom := nIds * nHierTot
+  let top : Nat → α := fun j => params (nBottom + topOff + j)
+  let cov : Nat → Nat → α := fun i c => covAll i (covOff + c)
+  let th := s.th nIds top cov
+  -- eta of this sub-model: own bottom entries, or (pooled / heterogeneous) the values that
+  -- `compute_individual_parameters(return_eta=True)` fills in
+  let eta : Nat → Nat → α := fun i d =>
+    match s.kind with
+    | .pooled => th i 0 d
+    | .hetero => th i i d
+    | _ => params (i * nHierTot + hierOff + d)
+  (popLL s.kind nIds s.nDim th eta,
+   (List.range s.nDim).map (fun d => fun i => indiv legacyTrunc s.kind nIds s.nDim th eta i d))
+
 /-- walk over the sub-models with running offsets -/
 def hierGo [HasErf α] (legacyTrunc : Bool) (nIds nHierTot : Nat) (params : Nat → α)
     (covAll : Nat → Nat → α) :
@@ -44,22 +64,9 @@ def hierGo [HasErf α] (legacyTrunc : Bool) (nIds nHierTot : Nat) (params : Nat 
       Except HErr (Score α × List (Nat → PsiVal α))
   | [], _, _, _, acc, cols => .ok (acc, cols)
   | s :: ss, topOff, covOff, hierOff, acc, cols =>
-    let nBottom := nIds * nHierTot
-    let top : Nat → α := fun j => params (nBottom + topOff + j)
-    let cov : Nat → Nat → α := fun i c => covAll i (covOff + c)
-    let th := s.th nIds top cov
-    -- eta of this sub-model: own bottom entries, or (pooled / heterogeneous) the values that
-    -- `compute_individual_parameters(return_eta=True)` fills in
-    let eta : Nat → Nat → α := fun i d =>
-      match s.kind with
-      | .pooled => th i 0 d
-      | .hetero => th i i d
-      | _ => params (i * nHierTot + hierOff + d)
-    let sc := popLL s.kind nIds s.nDim th eta
-    let newCols : List (Nat → PsiVal α) :=
-      (List.range s.nDim).map (fun d => fun i => indiv legacyTrunc s.kind nIds s.nDim th eta i d)
+    let r := subEval legacyTrunc nIds nHierTot params covAll s topOff covOff hierOff
     hierGo legacyTrunc nIds nHierTot params covAll ss (topOff + s.nTop nIds) (covOff + s.nCov)
-      (hierOff + s.nHier) (Score.add acc sc) (cols ++ newCols)
+      (hierOff + s.nHier) (Score.add acc r.1) (cols ++ r.2)
 
 def hierCall [HasErf α] (legacyTrunc : Bool) (nIds : Nat) (subs : List SubModel) (params : List α)
     (covAll : Nat → Nat → α) : Except HErr (HierOut α) :=
